@@ -135,7 +135,7 @@ CLAIMED = {
     "C02": dict(
         text="The reference of this property is Vim 9 itself, run live in batch mode on every case. Theorems (Coq reference model of the core motions h l 0 ^ $ w b e ge W B E gE f F t T with counts, all texts and cursors): every motion keeps the cursor inside the text; the settled normal-mode cursor is never on the line break of a non-empty line; "
              "w makes progress and stops only at a word start, an empty line or the end of the text; b and ge go strictly backwards; f F t land on (before) the searched character on the cursor's line or do not move. The model is tied to Vim and to vicut on every sampled motion case (Vim = model = vicut, zero tolerance). "
-             "Theorems (Coq model of the operators d y c over these motions, of dd yy cc, the word text objects, the line motions j k G gg, the case operators g~ gU gu, ~, r, J, j / k over display columns and p / P, Vim's rules transcribed): d removes one stretch and nothing else, the register holds exactly that stretch and putting it back restores the text; y never changes the text and fills the register as d would; c puts the typed text in place of the range; a failed motion leaves text and register alone; whole-line operations keep what is outside the lines; operator-w only goes forward and its range starts at the cursor; a put inserts count copies of the register in one place and nothing else and gives back what d took; the cursor d leaves is a normal-mode cursor; a word text object starts at or before the cursor; an operator over j k G gg fails without moving or takes whole lines with the cursor's line first or last among them; the case operators, ~ and r keep the text's length and line breaks and change nothing outside their range; J conserves every character that is neither a blank nor a line break, in order; j / k stay in the text. "
+             "Theorems (Coq model of the operators d y c over these motions, of dd yy cc, the word text objects, the line motions j k G gg, the case operators g~ gU gu, ~, r, J, j / k over display columns and p / P, Vim's rules transcribed): d removes one stretch and nothing else, the register holds exactly that stretch and putting it back restores the text; y never changes the text and fills the register as d would; c puts the typed text in place of the range; a failed motion leaves text and register alone; whole-line operations keep what is outside the lines; operator-w only goes forward and its range starts at the cursor; a put inserts count copies of the register in one place and nothing else and gives back what d took; the cursor d leaves is a normal-mode cursor; a word text object starts at or before the cursor; an operator over j k G gg fails without moving or takes whole lines with the cursor's line first or last among them; the case operators, ~ and r keep the text's length and line breaks and change nothing outside their range; J conserves every character that is neither a blank nor a line break, in order; j / k stay in the text; whole lines taken by d go back with P. "
              "The operator model is compared with live Vim on every case of a fixed family (text, cursor, register text and kind; zero tolerance) and vicut with Vim on the same cases. "
              "For the whole command subset (operators with motions and text objects, x X r ~ J p P D C Y dd yy cc, insert sessions with counts, yank-then-put, dot-repeat, v/V + motion + operator, operator+f then ; ,) vicut is compared with Vim on the exhaustive small-scope family (all texts over {a b space . newline} up to length 2 / 3, every cursor, every command), "
              "a fixed sample of texts up to length 5 and a fixed set of realistic records with 1-3 commands; the cases that deviate on the repaired tree are recorded one by one (known/c02_deviations.json) and listed by command class in known_findings.txt: any other deviation is a violation.",
